@@ -16,6 +16,109 @@ pub fn dispatch(fs: &[String]) -> String {
             Some(s) => format!("some\t{}", esc(&s)),
             None => "none".to_string(),
         },
+        "next_var_name" => {
+            let (n, id) = tc::verif_hooks::next_var_name(a(1).parse().unwrap());
+            format!("{}\t{}", esc(&n), id)
+        }
+        "lit_str_range" => {
+            let lo: u32 = a(1).parse().unwrap();
+            let hi: u32 = a(2).parse().unwrap();
+            let mut outs = vec![];
+            for v in lo..hi {
+                if let Some(c) = char::from_u32(v) {
+                    outs.push(tc::verif_hooks::gen_lit_str(&format!("{}{}{}", a(3), c, a(4))));
+                }
+            }
+            esc(&outs.join("\u{1f}"))
+        }
+        "group" => group(a(1)),
         _ => "bad-op".to_string(),
     }
+}
+
+use serde_json::{json, Value};
+
+fn level_num(l: tc::parse::ParseErrorLevel) -> u8 {
+    l as u8
+}
+
+pub fn warn_json(w: &tc::parse::ParseError) -> Value {
+    json!([
+        w.path,
+        w.code(),
+        level_num(w.level()),
+        w.location.start.line,
+        w.location.start.utf16_col,
+        w.location.end.line,
+        w.location.end.utf16_col,
+        w.kind.to_string()
+    ])
+}
+
+/// `group` op: field 1 is JSON {"files":[[path,src]..],"scripts":[[path,src]..],"extra":str?,"dev":bool?}
+pub fn group(req: &str) -> String {
+    let v: Value = serde_json::from_str(req).expect("bad json");
+    let mut g = if v["dev"].as_bool().unwrap_or(false) {
+        tc::TmplGroup::new_dev()
+    } else {
+        tc::TmplGroup::new()
+    };
+    let mut warnings = vec![];
+    let mut paths = vec![];
+    for f in v["files"].as_array().unwrap_or(&vec![]) {
+        let p = f[0].as_str().unwrap();
+        let s = f[1].as_str().unwrap();
+        for w in g.add_tmpl(p, s) {
+            warnings.push(warn_json(&w));
+        }
+        paths.push(p.to_string());
+    }
+    for f in v["scripts"].as_array().unwrap_or(&vec![]) {
+        g.add_script(f[0].as_str().unwrap(), f[1].as_str().unwrap());
+    }
+    if let Some(x) = v["extra"].as_str() {
+        g.set_extra_runtime_script(x);
+    }
+    let mut per = serde_json::Map::new();
+    let mut deps = serde_json::Map::new();
+    let mut sdeps = serde_json::Map::new();
+    let mut strs = serde_json::Map::new();
+    let mut inline = serde_json::Map::new();
+    for p in paths.iter() {
+        per.insert(
+            p.clone(),
+            match g.get_tmpl_gen_object(p) {
+                Ok(s) => json!(s),
+                Err(e) => json!({"err": e.message}),
+            },
+        );
+        if let Ok(d) = g.direct_dependencies(p) {
+            deps.insert(p.clone(), json!(d.collect::<Vec<_>>()));
+        }
+        if let Ok(d) = g.script_dependencies(p) {
+            sdeps.insert(p.clone(), json!(d.collect::<Vec<_>>()));
+        }
+        if let Ok(d) = g.inline_script_module_names(p) {
+            inline.insert(p.clone(), json!(d.collect::<Vec<_>>()));
+        }
+        strs.insert(p.clone(), json!(g.stringify_tmpl(p)));
+    }
+    let e = |r: Result<String, tc::TmplError>| match r {
+        Ok(s) => json!(s),
+        Err(e) => json!({"err": e.message}),
+    };
+    let out = json!({
+        "warnings": warnings,
+        "per": per,
+        "deps": deps,
+        "script_deps": sdeps,
+        "inline_modules": inline,
+        "stringify": strs,
+        "gen_groups": e(g.get_tmpl_gen_object_groups()),
+        "wx_groups": e(g.get_wx_gen_object_groups()),
+        "runtime": g.get_runtime_string(),
+        "globals": e(g.export_globals()),
+        "all_scripts": e(g.export_all_scripts()),
+    });
+    out.to_string()
 }
